@@ -185,6 +185,14 @@ func (wk *dWorker) makeCall(streamKey int, target *rpcbench.LocalCap, allowCaps 
 			c.resCaps[slot] = lc
 			c.nested[slot] = rc.Nested
 		}
+		// an implementation that places capabilities in its results and
+		// then fails ("boom-<uid>-after-results"): the answer owns those
+		// references until Finish / Close
+		if len(plan.ResCaps) > 0 && wk.rng.Chance(1, 4) {
+			plan.FailAfterResults = true
+			c.expectExc = true
+			wk.count("plans_fail_after_result_caps", 1)
+		}
 	}
 	c.plan = d.w.Plan(plan)
 	uid, stream, seq := c.uid, c.stream, c.seq
@@ -406,22 +414,42 @@ func (wk *dWorker) opReleaseAnswer() {
 	}
 }
 
-// opEmbargo: pass one of my capabilities to the other side, which returns
-// it; pipeline calls on the promised answer, then call the resolved
-// capability directly.  One stream: my capability must observe all of them
-// in issue order.
+// opEmbargo: pass one (sibling variant: two) of my capabilities to the other
+// side, which returns them; pipeline calls on the promised answer, then call
+// the resolved capabilities directly.  One stream per result path: my
+// capability must observe all calls of a path in issue order.
 func (wk *dWorker) opEmbargo() {
 	d := wk.d
 	ls := wk.mine().locals
-	lc := ls[wk.rng.Intn(len(ls))]
-	mine := wk.mine().base[lc.N].C
-	a := &dCall{uid: d.newUID(), target: wk.other().boot, resCaps: map[int]*rpcbench.LocalCap{0: lc}, nested: map[int]bool{}, embargo: true}
+	type epath struct {
+		slot int
+		lc   *rpcbench.LocalCap
+		mine *capnp.Client
+		key  int
+		ops  []capnp.PipelineOp
+	}
+	slots := []int{0}
+	if wk.rng.Chance(2, 5) {
+		a := wk.rng.Intn(rpcbench.NumPtr)
+		slots = []int{a, (a + 1 + wk.rng.Intn(rpcbench.NumPtr-1)) % rpcbench.NumPtr}
+		wk.count("sibling_embargo_rounds", 1)
+	}
+	var paths []*epath
+	a := &dCall{uid: d.newUID(), target: wk.other().boot, resCaps: map[int]*rpcbench.LocalCap{}, nested: map[int]bool{}, embargo: true}
+	var rcs []rpcbench.ResCap
+	for _, slot := range slots {
+		lc := ls[wk.rng.Intn(len(ls))]
+		paths = append(paths, &epath{slot: slot, lc: lc, mine: wk.mine().base[lc.N].C, key: 200000 + int(a.uid&0xffff)*8 + slot,
+			ops: []capnp.PipelineOp{{Field: uint16(slot)}}})
+		a.resCaps[slot] = lc
+		rcs = append(rcs, rpcbench.ResCap{Slot: slot, ArgSlot: slot})
+	}
 	a.stream, a.seq = wk.streamOf(wk.boot.key)
 	beh := rpcbench.BehAckBlock
 	if wk.rng.Chance(1, 3) {
 		beh = rpcbench.BehAckReturn
 	}
-	a.plan = d.w.Plan(&rpcbench.CallPlan{UID: a.uid, Behaviour: beh, ResCaps: []rpcbench.ResCap{{Slot: 0, ArgSlot: 0}}})
+	a.plan = d.w.Plan(&rpcbench.CallPlan{UID: a.uid, Behaviour: beh, ResCaps: rcs})
 	uid, stream, seq := a.uid, a.stream, a.seq
 	wk.calls = append(wk.calls, a)
 	a.ans, a.release = wk.boot.h.C.SendCall(context.Background(), capnp.Send{
@@ -429,15 +457,15 @@ func (wk *dWorker) opEmbargo() {
 		PlaceArgs: func(st capnp.Struct) error {
 			ct := rpcbench.NewContent(uid)
 			ct.Stream, ct.Seq = stream, seq
-			ct.Slots[0] = int(st.Message().AddCap(mine.AddRef()))
+			for _, ep := range paths {
+				ct.Slots[ep.slot] = int(st.Message().AddCap(ep.mine.AddRef()))
+			}
 			return rpcbench.FillStruct(st, &ct)
 		},
 	})
-	key := 200000 + int(a.uid&0xffff)
-	ops := []capnp.PipelineOp{{Field: 0}}
-	mk := func() (*dCall, capnp.Send) {
-		c := &dCall{uid: d.newUID(), target: lc, parent: a, resCaps: map[int]*rpcbench.LocalCap{}, nested: map[int]bool{}, embargo: true}
-		c.stream, c.seq = wk.streamOf(key)
+	mk := func(ep *epath) (*dCall, capnp.Send) {
+		c := &dCall{uid: d.newUID(), target: ep.lc, parent: a, resCaps: map[int]*rpcbench.LocalCap{}, nested: map[int]bool{}, embargo: true}
+		c.stream, c.seq = wk.streamOf(ep.key)
 		beh := []int{rpcbench.BehReturnNow, rpcbench.BehAckReturn, rpcbench.BehAckReturn, rpcbench.BehExcNow}[wk.rng.Intn(4)]
 		c.expectExc = beh == rpcbench.BehExcNow
 		c.plan = d.w.Plan(&rpcbench.CallPlan{UID: c.uid, Behaviour: beh})
@@ -451,27 +479,34 @@ func (wk *dWorker) opEmbargo() {
 				return rpcbench.FillStruct(st, &ct)
 			}}
 	}
-	for i, n := 0, wk.rng.Range(1, 4); i < n; i++ {
-		c, send := mk()
-		c.ans, c.release = a.ans.PipelineSend(context.Background(), ops, send)
+	for _, ep := range paths {
+		for i, n := 0, wk.rng.Range(1, 4-len(paths)+1); i < n; i++ {
+			c, send := mk(ep)
+			c.ans, c.release = a.ans.PipelineSend(context.Background(), ep.ops, send)
+		}
 	}
 	a.plan.Release()
 	wk.resolve(a)
 	if !a.ok {
 		return
 	}
-	var direct *capnp.Client
-	if st, err := a.ans.Struct(); err == nil {
-		if p, err := st.Ptr(0); err == nil {
-			direct = p.Interface().Client()
+	// the later-marked path first: it is the one an incomplete set of
+	// embargoes would miss
+	for k := len(paths) - 1; k >= 0; k-- {
+		ep := paths[k]
+		var direct *capnp.Client
+		if st, err := a.ans.Struct(); err == nil {
+			if p, err := st.Ptr(uint16(ep.slot)); err == nil {
+				direct = p.Interface().Client()
+			}
 		}
-	}
-	for i, n := 0, wk.rng.Range(1, 3); i < n; i++ {
-		c, send := mk()
-		if direct != nil && wk.rng.Bool() {
-			c.ans, c.release = direct.SendCall(context.Background(), send)
-		} else {
-			c.ans, c.release = a.ans.PipelineSend(context.Background(), ops, send)
+		for i, n := 0, wk.rng.Range(1, 3); i < n; i++ {
+			c, send := mk(ep)
+			if direct != nil && wk.rng.Bool() {
+				c.ans, c.release = direct.SendCall(context.Background(), send)
+			} else {
+				c.ans, c.release = a.ans.PipelineSend(context.Background(), ep.ops, send)
+			}
 		}
 	}
 	wk.count("embargo_rounds", 1)
@@ -696,7 +731,12 @@ func (d *duo) quiesceAndCheck(where string, final bool) bool {
 	}
 	d.checkOrder()
 	wire := analyzeWire(d.log.Snapshot(), d.w)
+	d.cnt["disembargo_targets_checked"] = wire.disChecked
+	d.cnt["disembargo_sibling_targets_checked"] = wire.disSiblings
 	for _, v := range wire.viols {
+		if v[0] == "C06/disembargo-missing" && atomic.LoadInt32(&d.closing) != 0 {
+			continue // a closing Conn drops the messages of handleReturn
+		}
 		if !d.wireReported(v[0] + v[1]) {
 			d.violate(v[0], v[1], d.log.Tail(40))
 		}
